@@ -308,6 +308,48 @@ func assocC03(c *Ctx) {
 				}
 			}
 		}
+		// a further comparison of two precedences, neither of them the right
+		// child's operator, that decides an insertion of its own
+		childOp := func(v ssa.Value) bool {
+			call, ok := v.(*ssa.Call)
+			if !ok || len(call.Call.Args) != 1 {
+				return false
+			}
+			_, fld, ok := fieldRef(call.Call.Args[0])
+			return ok && fld == "Op"
+		}
+		for _, b := range sf.Blocks {
+			for _, in := range b.Instrs {
+				bo, ok := in.(*ssa.BinOp)
+				if !ok {
+					continue
+				}
+				cx, okx := bo.X.(*ssa.Call)
+				cy, oky := bo.Y.(*ssa.Call)
+				if !okx || !oky || cx.Call.StaticCallee() != precF || cy.Call.StaticCallee() != precF || childOp(bo.X) || childOp(bo.Y) {
+					continue
+				}
+				for _, ref := range *bo.Referrers() {
+					ifi, ok := ref.(*ssa.If)
+					if !ok {
+						continue
+					}
+					for _, succ := range ifi.Block().Succs {
+						for _, d := range sf.Blocks {
+							if d != succ && !(succ.Dominates(d) && len(succ.Preds) == 1) {
+								continue
+							}
+							for _, x := range d.Instrs {
+								if a, ok := x.(*ssa.Alloc); ok && a.Heap && types.Identical(a.Type().(*types.Pointer).Elem(), binT) {
+									c.Bad("C03.assoc", "(*Parser).ParseExpr: precedence comparison", bo.Pos(), "a second comparison of precedences — of the new operator with something other than the right child's operator — decides an insertion of its own: operators are placed by another rule than 'descend the right spine while the child binds looser'")
+									return
+								}
+							}
+						}
+					}
+				}
+			}
+		}
 		c.Unk("C03.assoc", "(*Parser).ParseExpr: precedence comparison", pe.Pos(), fmt.Sprintf("expected exactly one comparison of two Precedence() results, found %d: a different insertion algorithm is not accepted unexamined", nCmp))
 		return
 	}
@@ -590,6 +632,24 @@ func binPrintC03(c *Ctx, rule string) {
 			name, recv = cal.Name(), call.Call.Args[0]
 		}
 		if name != "String" {
+			// a helper of the package that renders one operand
+			cal := call.Call.StaticCallee()
+			if cal == nil || cal.Pkg != p.SPkg || len(cal.Blocks) == 0 {
+				return "", false
+			}
+			for ai, arg := range call.Call.Args {
+				for _, fld := range []string{"LHS", "RHS"} {
+					if ai < len(cal.Params) && p.TypeStr(arg.Type()) == "Expr" && derivesFromField(arg, fld, 0) {
+						switch operandHelperShape(cal, cal.Params[ai]) {
+						case "whole":
+							return "<" + fld + ">", true
+						case "part":
+							return "<part of " + fld + ">", true
+						}
+						return "<?>", true
+					}
+				}
+			}
 			return "", false
 		}
 		for _, fld := range []string{"LHS", "RHS", "Op"} {
@@ -729,4 +789,67 @@ func regexRHSHelper(c *Ctx, pe, h, pu, parseRegex, isRe *ssa.Function, insertBlk
 func isNilConst(v ssa.Value) bool {
 	k, ok := v.(*ssa.Const)
 	return ok && k.Value == nil
+}
+
+// operandHelperShape classifies a helper that renders the operand prm: "whole"
+// when every return is prm.String(), "part" when some return prints a value
+// taken out of prm (its inner expression, say), "" otherwise.
+func operandHelperShape(h *ssa.Function, prm *ssa.Parameter) string {
+	var inside func(v ssa.Value, d int) bool
+	inside = func(v ssa.Value, d int) bool {
+		if d > 8 {
+			return false
+		}
+		switch x := v.(type) {
+		case *ssa.Parameter:
+			return x == prm
+		case *ssa.TypeAssert:
+			return inside(x.X, d+1)
+		case *ssa.Extract:
+			return inside(x.Tuple, d+1)
+		case *ssa.UnOp:
+			return inside(x.X, d+1)
+		case *ssa.FieldAddr:
+			return inside(x.X, d+1)
+		case *ssa.MakeInterface:
+			return inside(x.X, d+1)
+		case *ssa.ChangeInterface:
+			return inside(x.X, d+1)
+		}
+		return false
+	}
+	shape := "whole"
+	n := 0
+	for _, b := range h.Blocks {
+		ret, ok := b.Instrs[len(b.Instrs)-1].(*ssa.Return)
+		if !ok || len(ret.Results) != 1 {
+			continue
+		}
+		n++
+		call, ok := ret.Results[0].(*ssa.Call)
+		if !ok {
+			return ""
+		}
+		var recv ssa.Value
+		name := ""
+		if call.Call.IsInvoke() {
+			name, recv = call.Call.Method.Name(), call.Call.Value
+		} else if cal := call.Call.StaticCallee(); cal != nil && cal.Signature.Recv() != nil && len(call.Call.Args) > 0 {
+			name, recv = cal.Name(), call.Call.Args[0]
+		}
+		if name != "String" {
+			return ""
+		}
+		switch {
+		case recv == ssa.Value(prm):
+		case inside(recv, 0):
+			shape = "part"
+		default:
+			return ""
+		}
+	}
+	if n == 0 {
+		return ""
+	}
+	return shape
 }
